@@ -8,7 +8,7 @@ META = {
     'technique': 'Coq proof (invariants over all operation histories of an executable model of RotatingFileSink, instantiated at the '
                  'decision shapes translated from the source) + differential run of the extracted model against the real sink under a '
                  'virtual wall clock + extracted boolean oracle evaluated on the implementation\'s directories',
-    'text': 'Theorems (Properties_C07.v): size_bound (L > 0, N <> 1: every file <= L bytes or a single record, rotated and removed ones included), never_split (every file is a list of whole records of the history), message_type_irrelevant (the same history with any other QtMsgType per record, e.g. all fatal, yields the same directory) — for every history of write (any payload, any message type) / clock advance / restart / foreign-file operations, every L, N, '
+    'text': 'Theorems (Properties_C07.v): size_bound (L > 0, N <> 1: every file <= L bytes or a single record, rotated and removed ones included), never_split (every file is a list of whole records of the history), raw_text_of_a_formatted_message_irrelevant / size_counts_the_shown_text (what is measured and written is LogMessage::formattedMessage(): the formatted text when set - also when empty - else the raw text), message_type_irrelevant (the same history with any other QtMsgType per record, e.g. all fatal, yields the same directory) — for every history of write (any payload, any message type) / clock advance / restart / foreign-file operations, every L, N, '
             'option set and timestamp granularity.  They are about the very definitions that are extracted and run against the real '
             'RotatingFileSink (directory listing identical after every operation); the oracle prop_c07_b, proved true on every model '
             'world, is evaluated on the implementation\'s listings with ghost data reconstructed from the written history.',
